@@ -94,17 +94,12 @@ def exFrames (ids : List Int) (npre npost nstart nitem nend : Nat) (items : Bool
 def exReplay (b : Bytes) (frames : List FrameOcc) (e : Bytes) : Replay :=
   { startBlock := b, frames := frames, fend := some e, doubled := true, metadata := some exMeta }
 
-section
-variable (b : Bytes) (frames : List FrameOcc) (e : Bytes) (gk : Option GeckoBlocks)
-
 /-- everything `WFAny` asks of the example, as one Boolean the kernel evaluates -/
-def exCheck : Bool :=
+def exCheck (b : Bytes) (frames : List FrameOcc) (e : Bytes) (gk : Option GeckoBlocks) : Bool :=
   (gameStart T0 b).isOk && decide (0 < b.length) && decide (b.length < 65536) &&
   frames.all (frameOKb (startOf b).version (nSlots (portOccupancy (startOf b)))) &&
   decide (0 < e.length) && decide (e.length < 65536) && (gameEnd e).isOk && decide (e.length = endSize (startOf b).version) &&
   decide (((exReplay b frames e).rawAny (startOf b).version (portOccupancy (startOf b)) gk).length < 256 ^ 4)
-
-end
 
 theorem gameEnd_isOk (e : Bytes) (h : (gameEnd e).isOk = true) : ∃ ge, gameEnd e = .ok ge := by
   cases hg : gameEnd e with
